@@ -244,6 +244,22 @@ def parseCfg (cfg : String) : Bool × Nat :=
 
 def handleC17 : Handler := fun comp a impl =>
   match comp, a with
+  | "relay.api", [retry, auto] =>
+    -- the HTTP layer: a field given in the request body is used as given (0 = "never retry" / "stop immediately" included),
+    -- an absent one takes the documented default (never retry, never stop automatically); the answer reports whether an
+    -- attempt was started (no consumer: with auto-stop 0 none may start)
+    let ival (s : String) : Int := if s.startsWith "-" then - Int.ofNat (nat! (s.drop 1).toString) else Int.ofNat (nat! s)
+    let r : Int := if retry == "-" then Gen.pullRetryNumNever else ival retry
+    let au : Int := if auto == "-" then Gen.autoStopNever else ival auto
+    let started := au < 0 || au > 0     -- no consumer on the stream: "immediately" means no attempt at all
+    let code := if started then "0" else impl.splitOn " " |>.headD "" |>.drop 5 |>.toString
+    let model := s!"code={code} api=1 retry={r} auto={au}"
+    let v := if impl == "http-error" then "bad:api-did-not-answer"
+      else if (impl.splitOn s!" retry={r} auto={au}").length != 2 then "bad:start-relay-pull-does-not-use-the-values-given"
+      else if !started && impl.startsWith "code=0 " then "bad:api-reports-a-started-pull-that-the-rule-forbids"
+      else if started && !impl.startsWith "code=0 " then "bad:api-refuses-a-pull-the-rule-allows"
+      else "ok"
+    some { model := model, verdict := v }
   | "pkb.grow", [cap, wp, n] =>
     let b := (newBuffer (nat! cap)).modWritePos (nat! wp)
     let model := match b.grow (nat! n) with
